@@ -1,2 +1,3 @@
 import ArcheProofs.Props.C04
 import ArcheProofs.Props.C12
+import ArcheProofs.Props.C02
